@@ -45,6 +45,7 @@ func init() {
 		Explain: "Structural necessary conditions of C16: (R16.1) shouldPush admits a message only on the false edges of blacklist.Contains(forwarder) and blacklist.Contains(author), and remote messages reach pushMsg only through shouldPush; (R16.2) the blacklistPeer arm of the event loop always calls blacklist.Add and, when a queue exists, closes it, deletes it from p.peers, clears topic state and notifies the router; (R16.3) the newPeerStream arm sends the hello packet only on the false edge of blacklist.Contains and on the true edge closes/removes the queue and resets the stream; handlePendingPeers creates a queue only on the false edge; (R16.4) every outbound push takes its queue from p.peers (lookup/range) in the same event-loop step; (R16.5) both Blacklist implementations use the same key in Add and Contains; (R16.6) a message that was inside the validation pipeline when its forwarder or author was blacklisted is not delivered: the sendMsg arm of the event loop reaches publishMessage only on the false edges of blacklist.Contains(ReceivedFrom) and Contains(author); (shared R15.5/R15.6) a closed queue hands out nothing, even with a backlog, and the writer leaves on the error. (audit round) R16.2: topic state cleared on every path of the arm; (R16.7) a cached message is served to IWANT only on the false edges of both blacklist tests, and only handleIWant reads the cache for sending. NOT decided: expiry of the time-cached blacklist; messages a validation worker hands to the event loop in the same instant the blacklisting is processed are ordered by the loop's select (either order satisfies the property).",
 		Assume:  []string{"the event loop is single-threaded (processLoop owns p.peers)"},
 		Mutants: []Mutant{
+			{Name: "blacklisted-rpc-acted-upon", File: "pubsub.go", Old: "\tif p.blacklist != nil && p.blacklist.Contains(rpc.from) {\n\t\tfor _, pmsg := range rpc.GetPublish() {", New: "\tif p.blacklist != nil && p.blacklist.Contains(rpc.from) && len(rpc.GetSubscriptions()) == 0 {\n\t\tfor _, pmsg := range rpc.GetPublish() {", Expect: "R16.8"},
 			{Name: "no-recheck-after-validation", File: "pubsub.go", Old: "\t\t\tif p.blacklist.Contains(msg.ReceivedFrom) {\n\t\t\t\tp.logger.Debug(\"dropping validated message from blacklisted peer\"", New: "\t\t\tif false && p.blacklist.Contains(msg.ReceivedFrom) {\n\t\t\t\tp.logger.Debug(\"dropping validated message from blacklisted peer\"", Expect: "R16.6"},
 			{Name: "shouldPush-skip-author-blacklist", File: "pubsub.go", Old: "\t// even if they are forwarded by good peers\n\tif p.blacklist.Contains(msg.GetFrom()) {", New: "\t// even if they are forwarded by good peers\n\tif p.blacklist.Contains(msg.GetFrom()) && msg.GetFrom() != src {", Expect: "R16.1"},
 			{Name: "blacklist-arm-no-router-notify", File: "pubsub.go", Old: "\t\t\t\tdelete(p.peers, pid)\n\t\t\t\tp.rt.OnClosedOutboundStream(pid)\n\t\t\t}\n\t\t\t// what the peer announced", New: "\t\t\t\tdelete(p.peers, pid)\n\t\t\t}\n\t\t\t// what the peer announced", Expect: "R16.2"},
@@ -733,6 +734,40 @@ func runC16(c *RuleCtx) {
 			c.Check(root == f.Name, "R16.7", root, "message cache read for sending only by handleIWant", cs.Call, "handleIWant", "the message cache is also read by "+root+", which is not covered by the blacklist re-check")
 		}
 	}
+	// R16.8 a blacklisted peer keeps its inbound stream (nothing closes it), so handleIncomingRPC is where what it
+	// says must stop: the topic-map bookkeeping, the router's HandleRPC/Preprocess (GRAFT, IHAVE/IWANT, extension and
+	// partial-message payloads handed to the application) and pushMsg are reached only on the false edge of
+	// blacklist.Contains(rpc.from)
+	if f := c.MustFn("R16.8", fnHandleRPC); f != nil {
+		blFrom := AtomBool("blacklist.Contains(rpc.from)", func(v *V) bool {
+			return v.IsCall(fnBLContains) && len(v.Args) == 2 && v.Args[1].IsField("RPC.from")
+		})
+		n := 0
+		need := func(site ast.Node, what string) {
+			n++
+			// (a nil blacklist has no members: bare PubSub values built by unit tests)
+			noBL := AtomNil("p.blacklist == nil", isFieldOf("PubSub.blacklist"))
+			ok, why := p.DomAny(f, site, AtomWant{blFrom, false}, AtomWant{noBL, true})
+			c.Check(ok, "R16.8", f.Name, what+" only for a sender that is not blacklisted", site, why, "an RPC from a blacklisted peer (whose inbound stream stays open) still reaches "+what+": "+why)
+		}
+		for _, cs := range p.Sites(f, false, "PubSubRouter.HandleRPC") {
+			need(cs.Call, "the router's HandleRPC")
+		}
+		for _, cs := range p.Sites(f, false, "PubSubRouter.Preprocess") {
+			need(cs.Call, "the router's Preprocess")
+		}
+		// (messages themselves are stopped by shouldPush, R16.1)
+		for _, mi := range p.mapInserts(f) {
+			mv := p.R(f).Val(mi.Map)
+			if mv != nil && (mv.Has(func(x *V) bool { return x.IsField("PubSub.topics") })) {
+				need(mi.Stmt, "the topic-map bookkeeping")
+			}
+		}
+		if n < 3 {
+			c.Undecided("R16.8", f.Name, "ingress effects", f.Decl, "fewer effect sites than known (HandleRPC, Preprocess, topic-map insert): "+itoa(n))
+		}
+		c.Min["R16.8"] = 3
+	}
 	// "nothing further is sent" after the queue was closed rests on the queue itself: a closed queue hands out
 	// nothing (even with a backlog) and the writer leaves on the error — decided under C15, re-evaluated here
 	{
@@ -823,12 +858,12 @@ func checkPushReceivers(c *RuleCtx, rule string) {
 	p := c.P
 	sites := p.AllSites("(*rpcQueue).Push", "(*rpcQueue).UrgentPush")
 	for _, cs := range sites {
-		se, _ := unparen(cs.Call.Fun).(*ast.SelectorExpr)
-		if se == nil {
+		recv := p.callReceiver(cs)
+		if recv == nil {
 			c.Undecided(rule, cs.Fn.Name, "push receiver", cs.Call, "receiver expression not recognised")
 			continue
 		}
-		ok, why := queueFromPeers(p, cs.Fn, se.X, 0)
+		ok, why := queueFromPeers(p, cs.Fn, recv, 0)
 		c.Check(ok, rule, cs.Fn.Root().Name, "push receiver comes from p.peers", cs.Call, why, why)
 	}
 }
